@@ -3,6 +3,7 @@ import copy
 import json
 import logging
 import math
+import re
 from fractions import Fraction
 
 from harness import core, engine
@@ -107,6 +108,29 @@ def tb_coq(tb):
     return core.clist(tb, lambda e: '(%s, %s)' % (core.cstr(e[0]), engine.qlist(e[1])))
 
 
+# ---- the decidable block comparison of coq/RefineTermsBlocks.v (template constraint families vs the model's constrained
+# parameter sets: names, kinds, component indices, variances / factors), the auxdata-size premise of C02_length_cterms_auxdata and
+# the access-field layout premise of C02_logpdf_terms_refines_partial, evaluated in Coq for every generated model.  The theorems
+# accepted_families / accepted_names_covered / accepted_family_names_nodup (RefineTermsFinal.v) say the comparison holds for every
+# accepted specification: this is their cross-check on the executed instance.
+OKB_NAMES = ['names_okb', 'alpha_okb', 'lumi_okb', 'stat_okb', 'shapesys_okb', 'aux_sizes_okb', 'layout_okb']
+OKB_HEADER = engine.HEADER + '''
+Require Import PV.RefineTop PV.RefineTerms PV.RefineTermsBlocks.
+Definition c02_okb (sp : qspec) : string * list bool :=
+  match build QcNum sp with
+  | Err e => (err_code e, [])
+  | Ok m => let ps := md_psets QcNum m in
+            ("ok", [names_okb QcNum sp ps; alpha_okb QcNum sp ps; lumi_okb QcNum sp ps; stat_okb QcNum sp ps;
+                    shapesys_okb QcNum sp ps; aux_sizes_okb QcNum ps; layout_okb QcNum sp m]) end.
+'''
+
+
+def parse_okb(txt):
+    flags = re.findall(r'\b(true|false)\b', txt)
+    status = re.search(r'"(\w*)"', txt)
+    return (status.group(1) if status else '?'), [f == 'true' for f in flags]
+
+
 def run(ctx):
     import pyhf
     logging.getLogger('pyhf').setLevel(logging.CRITICAL)
@@ -120,11 +144,11 @@ def run(ctx):
         c['st'] = {k: v for k, v in c['st'].items() if k in ('normsys', 'histosys')}       # clipping is C01's business
     rec = Recorder()
     rec.install()
-    exprs, refexprs, impls = [], [], []
+    exprs, refexprs, okbexprs, impls = [], [], [], []
     found = False
     evaluations = 0
     sigs = set()
-    stats = dict(terms_pois=0, terms_norm=0, overrides=0, nan_logpdf=0)
+    stats = dict(terms_pois=0, terms_norm=0, overrides=0, nan_logpdf=0, premises_evaluated=0, premises_false=0)
     try:
         for case in cases:
             spec, poi, st = case['spec'], case['poi'], case['st']
@@ -137,6 +161,7 @@ def run(ctx):
                 impls.append(None)
                 exprs.append(None)
                 refexprs.append(None)
+                okbexprs.append(None)
                 continue
             cfg = engine.impl_config(m)
             pts = []
@@ -171,6 +196,7 @@ def run(ctx):
             if engine.nontrivial(spec):
                 sigs.add(engine.shape_signature(spec))
             exprs.append(engine.case_expr(spec, poi, st, pts))
+            okbexprs.append('c02_okb %s' % engine.spec_to_coq(spec, poi))
             refexprs.append('run_ref_terms [] %s %s %s' % (engine.spec_to_coq(spec, poi), engine.settings_to_coq(st), core.clist(
                 [tables(cfg, p, d) for p, d in pts], lambda t: '(%s, %s, %s)' % (tb_coq(t[0]), tb_coq(t[1]), tb_coq(t[2])))))
     finally:
@@ -180,6 +206,7 @@ def run(ctx):
     try:
         res = dict(zip(idx, core.coq_eval(ctx, 'impl', engine.HEADER, [exprs[i] for i in idx], shard=15)))
         rres = dict(zip(idx, core.coq_eval(ctx, 'ref', engine.HEADER, [refexprs[i] for i in idx], shard=15)))
+        okres = dict(zip(idx, core.coq_eval(ctx, 'okb', OKB_HEADER, [okbexprs[i] for i in idx], shard=15)))
     except core.CoqEvalError as e:
         res = None
         tie = tie or ('model evaluation failed: ' + str(e)[-1200:])
@@ -191,6 +218,16 @@ def run(ctx):
             ndis += 1
             tie = tie or 'model refuses a spec the implementation builds: %s' % mo['build']
             continue
+        # premises of the refinement theorems, decidable forms: all must evaluate to true
+        okst, okflags = parse_okb(okres[i])
+        stats['premises_evaluated'] += 1
+        if okst != 'ok' or len(okflags) != len(OKB_NAMES) or not all(okflags):
+            ndis += 1
+            failing = [nm for nm, f in zip(OKB_NAMES, okflags) if not f] or [okst]
+            stats['premises_false'] += 1
+            if 'first_premise_failure' not in ctx.coverage:
+                ctx.coverage['first_premise_failure'] = dict(case=case, failing=failing)
+            tie = tie or 'premise of the term-list refinement evaluates to false on an accepted model: %r' % (failing,)
         for j, ((pars, data), ev) in enumerate(zip(im['points'], im['evals'])):
             if 'error' in ev:
                 ctx.violation('logpdf-error:' + ev['error'], 'logpdf evaluation failed on a well-formed model: ' + ev['msg'], dict(case=case, pars=pars, data=data))
@@ -247,13 +284,19 @@ def run(ctx):
     if tie and not found:
         ctx.violation('tie-broken', tie[:300], dict(kind='tie', detail=tie, theorem='props/C02.v / Impl correspondence',
                                                      first_disagreement=ctx.coverage.get('first_disagreement')), nofail=True)
+    ctx.assumptions += ['C02_logpdf_terms_refines_partial: JSON-schema shapes of modifier data (shape_ok, list_shape_ok), per-sample clip not positive '
+                        '(clip_guard, C01 known finding), access-field layout premise layout_okb (evaluated true on every generated model; '
+                        'derivation from build = Ok is RefineLayout.v); number laws: ring, sound boolean equality, a/b = a*inv b (proved for Qc and R)',
+                        'C02_length_cterms_auxdata: no constrained parameter set of size 0 (empty sample data, refused by the schema); '
+                        'the excluded corner is refuted by C02_auxdata_length_refuted']
     ctx.trusted += ['density primitives are parameters of the engine (property C04); reference sums use mpmath at 40 digits',
                     'term interception wraps numpy_backend.poisson_logpdf/normal_logpdf at class level (harness side)']
     ctx.coverage.update(evaluations=evaluations, distinct_nontrivial=len(sigs), stats=stats, model_impl_disagreements=ndis,
                         rule='C01 spec generator with measurement overrides; 2 points per spec with arbitrary (non-nominal) auxiliary data and '
                              'integer/half-integer main data; observables: the (n,lambda)/(x,mu,sigma) arrays pyhf hands to the density '
                              'primitives as multisets vs Ref terms (Coq) and vs Impl terms (Coq), logpdf/mainlogpdf/constraint_logpdf/pdf vs '
-                             'sums of mpmath densities of the Ref terms, expected_auxdata. non-trivial/distinct as in C01',
+                             'sums of mpmath densities of the Ref terms, expected_auxdata; per model the decidable premises/block comparison '
+                             + '/'.join(OKB_NAMES) + ' evaluated in Coq (must be true). non-trivial/distinct as in C01',
                         samples=[dict(spec=cases[0]['spec'], point=impls[0]['points'][0] if impls[0] else None,
                                       impl={k: v for k, v in (impls[0]['evals'][0] if impls[0] else {}).items() if k != 'terms'})])
 
